@@ -103,10 +103,13 @@ class Fn:
     """
 
     def __init__(self, name, file, sig, csig=None, contract="", rewrites=(),
-                 loops=None, body_only=False, take="function"):
+                 loops=None, body_only=False, take="function", nloops=None):
         self.name, self.file, self.sig, self.csig = name, file, sig, csig
         self.contract, self.rewrites, self.loops = contract, list(rewrites), dict(loops or {})
         self.take = take
+        # number of loops the loop contracts were written for; if the body has a different number (refactoring) the
+        # loop contracts are dropped and the unit falls back to bounded unwinding instead of giving up
+        self.nloops = nloops
 
     def extract(self):
         path = os.path.join(REPO, self.file)
@@ -147,12 +150,20 @@ class Fn:
                 raise Undecided("canary mutation %r did not apply to %s" % (rx, self.name))
         for rx, rp, cnt in self.rewrites:
             body, n = re.subn(rx, rp, body)
+            if cnt == "opt":
+                if n:
+                    fired.append({"rule": rx, "replacement": rp, "fired": n, "optional": True})
+                continue
             if (cnt is None and n == 0) or (cnt is not None and n != cnt):
                 raise Undecided("extraction: rewrite %r fired %d times in %s (declared %s)"
                                 % (rx, n, self.name, "≥1" if cnt is None else cnt))
             fired.append({"rule": rx, "replacement": rp, "fired": n})
+        degraded = False
         if self.loops:
-            body = insert_loop_contracts(body, self.loops, self.name)
+            if self.nloops is not None and len(find_loops(body)) != self.nloops:
+                degraded = True
+            else:
+                body = insert_loop_contracts(body, self.loops, self.name)
         if self.take == "struct":
             h = self.csig if self.csig is not None else head
             text = "/* ---- %s (%s:%d-%d) ---- */\n%s%s;\n" % (self.name, self.file, span[0], span[1], h, body)
@@ -164,7 +175,10 @@ class Fn:
             self.name, self.file, span[0], span[1], h.rstrip(), self.contract, body)
         info = {"name": self.name, "file": self.file, "lines": "%d-%d" % span, "sha256": sha,
                 "signature_replaced": self.csig is not None, "rewrites": fired,
-                "loop_contracts": sorted(self.loops)}
+                "loop_contracts": [] if degraded else sorted(self.loops)}
+        if degraded:
+            info["loop_structure_changed"] = ("body has %d loops, loop contracts were written for %d: contracts dropped, unit falls back to "
+                                              "bounded unwinding" % (len(find_loops(body)), self.nloops))
         return text, info
 
 
@@ -266,7 +280,7 @@ class Unit:
                  rec=False, flags=(), backends=("minisat",), canaries=(), bounded=None,
                  unwind=None, timeout=600, native=None, mode="c", tiers=("quick", "thorough"),
                  defines=None, trusted=(), assumptions=(), claim="", havoc_loops=False,
-                 expect_fail=(), object_bits=None, split=False, pre_inputs="", checks=None, ignore=None, nondet_static=False, extra_files=()):
+                 expect_fail=(), object_bits=None, split=False, pre_inputs="", checks=None, ignore=None, fallback_unwind=None, allow_nobody=r"^(nondet_|__CPROVER|floor$|sqrt$|fmax$|fmin$|fabs$)", nondet_static=False, extra_files=()):
         self.__dict__.update(locals())
         del self.__dict__["self"]
 
@@ -414,6 +428,7 @@ class UnitResult:
         self.cmds = []
         self.samples = []
         self.log = ""
+        self.degraded = []
 
 
 def build_and_check(unit, tier, workdir, mutate=None, want_trace=True, tag="main"):
@@ -444,7 +459,9 @@ def build_and_check(unit, tier, workdir, mutate=None, want_trace=True, tag="main
         if rc != 0:
             raise Undecided("goto-instrument --havoc-loops failed for %s: %s" % (unit.name, out[-2000:]))
         cur = nxt
-    has_loops = any(f.loops for f in unit.fns)
+    degraded = [i for i in infos if i.get("loop_structure_changed")]
+    res["degraded"] = degraded
+    has_loops = any(i.get("loop_contracts") for i in infos)
     if unit.enforce or unit.replace or has_loops:
         nxt = os.path.join(d, "b.gb")
         cmd = ["goto-instrument", "--dfcc", "vf_harness"]
@@ -461,8 +478,13 @@ def build_and_check(unit, tier, workdir, mutate=None, want_trace=True, tag="main
             raise Undecided("goto-instrument --dfcc failed for %s (%s): %s" % (unit.name, tag, out[-3000:]))
         cur = nxt
     base = ["cbmc", cur, "--json-ui", "--no-standard-checks"] + (DEFAULT_CHECKS if unit.checks is None else list(unit.checks)) + list(unit.flags)
-    if unit.unwind:
-        base += ["--unwind", str(unit.unwind), "--unwinding-assertions"]
+    unwind = unit.unwind
+    if degraded and not unwind:
+        if not unit.fallback_unwind:
+            raise Undecided("loop structure of %s changed and the unit has no bounded fallback" % degraded[0]["name"])
+        unwind = unit.fallback_unwind
+    if unwind:
+        base += ["--unwind", str(unwind), "--unwinding-assertions"]
     if unit.object_bits:
         base += ["--object-bits", str(unit.object_bits)]
     if unit.nondet_static:
@@ -550,6 +572,12 @@ def cbmc_portfolio(base, unit, d, tag, only=None):
             del pending[be]
             dt = time.time() - t0
             results, msgs, status = parse_cbmc_json(outp)
+            nobody = [m for m in (msgs or []) if "no body for function" in m]
+            nb = [re.sub(r".*no body for function\s*", "", m).strip().strip("'`") for m in nobody]
+            nb = [x for x in nb if not re.search(unit.allow_nobody, x)]
+            if nb:
+                notes.append("%s: call to a function without body or contract in the generated TU: %s" % (be, ", ".join(sorted(set(nb))[:5])))
+                continue
             if only is not None and results is not None:
                 results = [r for r in results if r.get("property") in only]
                 if len(results) != len(only):
@@ -649,7 +677,8 @@ def run_unit(unit, tier, workdir):
     if unit.enforce and not R.classes.get("postcondition") and not R.classes.get("assertion"):
         R.status, R.reason = "undecided", "vacuity: no postcondition obligation present"
         return R
-    nloops = sum(len(f.loops) for f in unit.fns)
+    nloops = sum(len(i.get("loop_contracts") or []) for i in res["infos"])
+    R.degraded = res.get("degraded") or []
     if nloops:
         if R.classes.get("loop_invariant_step", 0) < 1 or R.classes.get("loop_invariant_base", 0) < 1:
             R.status, R.reason = "undecided", "vacuity: loop contracts silently dropped (no loop_invariant_* obligations)"
@@ -952,7 +981,9 @@ def write_evidence(prop_id, tier, seed, results, meta, wall, nviol, known):
            len([R for R in results if R.status == "fail"]), len([R for R in results if R.status == "undecided"]),
            discharged, obligations),
         "units": [{"unit": R.unit.name, "claim": R.unit.claim, "status": R.status, "reason": R.reason,
-                   "kind": ("bounded: " + R.unit.bounded) if R.unit.bounded else "proved (unbounded)",
+                   "kind": ("bounded: " + R.unit.bounded) if R.unit.bounded else (
+                       "bounded fallback (loop structure of %s changed): unwind %s" % (R.degraded[0]["name"], R.unit.fallback_unwind)
+                       if R.degraded else "proved (unbounded)"),
                    "obligations": R.obligations, "discharged": R.discharged, "backend": R.backend,
                    "seconds": R.seconds, "obligation_classes": R.classes,
                    "enforced_contract": R.unit.enforce, "replaced_by_contract": list(R.unit.replace)}
